@@ -1201,6 +1201,19 @@ def km7(P, C):
                 n += 1
                 C.ob("KM-7", name, "string-release-size@%s" % t0[-14:], ok, f.loc(i),
                      "released with strlen + 1" if ok else "%s is released with `%s`, not with the strlen()+1 it was obtained with" % (t0, f.render(a[1])[:60]))
+            elif r[1] == 0:         # the key array itself
+                # it exists whenever the pointer is non-null — the reader installs an array of zero entries for a file without keys — so
+                # the only test its release may depend on is a null test of the pointer (a test of the count abandons that array)
+                guards = [g for g in f.ancestors(i) if f.k(g) == "IfStmt" and f.nodes[g].get("then") in [i] + list(f.ancestors(i))]
+                texts = [f.render(f.nodes[g]["cond"]).replace("this->", "").replace(" ", "") for g in guards]
+                NULLTESTS = ("aux", "(aux!=nullptr)", "(aux!=0)", "(aux!=NULL)", "(nullptr!=aux)", "(aux!=__null)")
+                bad_g = [t for t in texts if t not in NULLTESTS]
+                size_ok = core.atom_text(f, a[1]) == "naux"
+                n += 1
+                C.ob("KM-7", name, "key-array-release", size_ok and not bad_g, f.loc(i),
+                     "the key array is released with naux entries, under no test other than a null test of the pointer" if size_ok and not bad_g else
+                     "the release of the key array depends on `%s` (size argument `%s`): an array of zero entries — what the reader installs for a "
+                     "file without keys — is never returned to the allocator" % (", ".join(bad_g) or "-", f.render(a[1])))
             elif r[1] == 1:         # an entry
                 ok = f.nodes[f.strip(a[1])].get("cv", f.nodes[f.strip(a[1])].get("v")) == 2
                 n += 1
@@ -1216,5 +1229,5 @@ def km7(P, C):
                  "the new key array has naux + 1 entries and naux is incremented once" if arr and len(incs) == 1 else
                  "the key array installed by the append path is not obtained with exactly naux + 1 entries (allocations seen: %s; increments of naux: %d): "
                  "it is later released with naux" % ([f.render(f.args(i)[0]) for i in news][:3], len(incs)))
-    if n < 8:
+    if n < 11:
         raise core.AnalysisBroken("KM-7: expected the releases of clear(), remove_key and write_key, found %d" % n)
